@@ -13,7 +13,7 @@ use proptest::strategy::ValueTree;
 use rayon::prelude::*;
 use serde_json::json;
 use std::collections::{BTreeMap, BTreeSet};
-use vcore::fmtoracle::{self, KnownDef};
+use vcore::fmtoracle::{self, KnownDef, RoundTrip};
 use vcore::gsyn::{self, Tag};
 use vcore::{farm, util, Args, Evidence, Known, Outcome};
 
@@ -26,6 +26,9 @@ const C09_KNOWN: &[(&str, Option<Tag>)] = &[
     ("trailing-ws:arrow", Some("arm.body.block")),
     ("trailing-ws:import", Some("import.path.empty")),
 ];
+
+/// open C08 findings (set once in main): failures they explain stay C08's
+static C08_ACTIVE: std::sync::OnceLock<Vec<&'static KnownDef>> = std::sync::OnceLock::new();
 
 struct Fail {
     key: String,
@@ -82,13 +85,27 @@ fn judge_with(x: &str, fcfg: Option<&incan::FormatConfig>) -> Judged {
     };
     let tags = gsyn::ast_tags(&a1);
     let y = match util::catch(|| fmtoracle::format_with(x, fcfg)) {
-        Ok(Ok(y)) => y,
-        Ok(Err(_)) => return Judged::Blocked("format_source error".into()),
-        Err(_) => return Judged::Blocked("format_source panic".into()),
+        Ok(Ok(y)) => Some(y),
+        _ => None,
     };
-    if !matches!(util::catch(|| gsyn::parse(&y)), Ok(Ok(_))) {
+    let parses = y.as_ref().is_some_and(|y| matches!(util::catch(|| gsyn::parse(y)), Ok(Ok(_))));
+    if !parses {
+        // fmt(x) failed or is not a program any more: fmt(fmt(x)) cannot equal fmt(x) and `--check` cannot succeed on
+        // the rewritten file. If an *open* C08 finding explains it the case stays C08's (blocked, counted);
+        // otherwise it is a violation of this property as well.
+        if let RoundTrip::Fail { failure, .. } = fmtoracle::roundtrip_with(x, fcfg) {
+            let active = C08_ACTIVE.get().map(|v| v.as_slice()).unwrap_or(&[]);
+            if let Some(d) = fmtoracle::attribute(&failure, &tags, active) {
+                return Judged::Blocked(format!("open C08 finding {}", d.key));
+            }
+            let short = failure.sig.split(", found").next().unwrap_or(&failure.sig).to_string();
+            let key = if y.is_some() { format!("idem:formatted-output-not-parseable:{short}") } else { format!("idem:format-failed:{short}") };
+            let what = format!("fmt(x) is not parseable, so fmt(fmt(x)) is an error and `incan fmt --check` fails on the rewritten file: {}", failure.detail);
+            return Judged::Done { fails: vec![Fail { key, what }], tags, formatted: y.unwrap_or_default() };
+        }
         return Judged::Blocked("formatted text does not parse".into());
     }
+    let y = y.unwrap_or_default();
     let mut fails = Vec::new();
     // 1. idempotence
     match util::catch(|| fmtoracle::format_with(&y, fcfg)) {
@@ -190,6 +207,8 @@ struct ChunkOut {
     samples: Vec<(String, String)>,
     /// (source, formatted) candidates for the CLI leg
     cli: Vec<(String, String)>,
+    /// cases whose formatted text does not parse (default config): the CLI leg must see `--check` fail after `fmt`
+    cli_priority: Vec<(String, String)>,
     deeper_32: u64,
     max_indent: usize,
     nondefault_config: u64,
@@ -260,6 +279,9 @@ fn run_chunk(class: u8, idx: usize, n: usize, seed: u64, cfg: &gsyn::GsynConfig,
                 }
                 if ((class == 0 && idx < 40) || (class == 1 && idx < 3)) && fcfg.is_none() && out.cli.is_empty() && k % 17 == 5 && formatted != p.source && p.source.len() < 6000 {
                     out.cli.push((p.source.clone(), formatted.clone()));
+                }
+                if fcfg.is_none() && out.cli_priority.is_empty() && fails.iter().any(|f| f.key.starts_with("idem:formatted-output-not-parseable")) && p.source.len() < 8000 {
+                    out.cli_priority.push((p.source.clone(), formatted.clone()));
                 }
                 for f in fails {
                     if let Some(key) = known_key(&f, &tags, known) {
@@ -497,6 +519,7 @@ fn main() {
     let known = out.known.clone();
     let c08_known = Known::load("C08");
     let c08_active: Vec<&'static KnownDef> = fmtoracle::active(&c08_known);
+    let _ = C08_ACTIVE.set(c08_active.clone());
 
     if let Some(path) = &args.replay {
         let text = std::fs::read_to_string(path).unwrap_or_default();
@@ -546,6 +569,7 @@ fn main() {
     let (mut deeper_32, mut max_indent, mut nondefault) = (0u64, 0usize, 0u64);
     let mut blocked: BTreeMap<String, u64> = BTreeMap::new();
     let mut cli_files: Vec<(String, String)> = Vec::new();
+    let mut cli_priority: Vec<(String, String)> = Vec::new();
     let n_cli = args.tier.pick(12usize, 300usize);
     let (mut generated, mut noise) = (0u64, 0u64);
     for (r, (class, ..)) in results.iter().zip(plan.iter()) {
@@ -570,6 +594,11 @@ fn main() {
         }
         for (s, y) in &r.samples {
             ev.sample(json!({"kind": "gsyn", "source": util::truncate(s, 500), "formatted": util::truncate(y, 500)}));
+        }
+        for c in &r.cli_priority {
+            if cli_priority.len() < 2 {
+                cli_priority.push(c.clone());
+            }
         }
         for c in &r.cli {
             if cli_files.len() < n_cli {
@@ -633,7 +662,10 @@ fn main() {
     }
     ev.set("seed_stats", json!(seed_stats));
 
-    // ---- 4. CLI leg
-    cli_leg(&cli_files, args.seed, &mut out, &mut ev);
+    // ---- 4. CLI leg (files whose formatted text did not parse go first)
+    cli_priority.extend(cli_files);
+    // keep room for the CLI signatures even when the in-process legs used up the report budget
+    out.max_reports += 3;
+    cli_leg(&cli_priority, args.seed, &mut out, &mut ev);
     std::process::exit(out.finish(&ev));
 }
